@@ -5,12 +5,12 @@ V = os.path.dirname(os.path.dirname(os.path.abspath(__file__)))
 W1 = "seeded deterministic simulation (W1): real core behind the lltdPort.h seam on a simulated LAN, "
 checks = {
  "C01": ("exploration", W1 + "corrupting network (truncation, padding, counter rewrites, noise, stale tails) under ASan+UBSan; all three receive entry points", "5.C01",
-         "Sanitizer reports and abnormal exits of the real core / classifier / ESP32 entry point on MTU-sized heap buffers are the oracle; sampling over seeds, not exhaustive. Trusted: gcc ASan/UBSan, the ledger allocator."),
+         "Sanitizer reports and abnormal exits of the real core / classifier / ESP32 entry point on MTU-sized heap buffers are the oracle; second half (W2): the real linux-embedded daemon's own malloc(MTU)+recvfrom path over a simulated libc. Sampling over seeds, not exhaustive. Trusted: gcc ASan/UBSan, the ledger allocator."),
  "C02": ("exploration", W1 + "independent byte-level decoder + solicitation ledger on every transmit, fill-pattern differential for the determinism clause", "5.C02",
          "Every frame passing lltd_port_send_frame / the periodic-Hello channel is decoded from wire offsets; each plan is run twice with different fresh-memory and stack fill. Uninitialised-stack dependence is only probabilistically exposed."),
  "C03": ("exploration", W1 + "set-valued mapper-arbitration reference model decides which Discovers are accepted; field-exact Hello oracle", "5.C03", "Acceptance is taken from the C05 reference model; bridged/direct mappers, both services, generation 0/0xFFFF are generated with bias."),
  "C04": ("exploration", W1 + "attribute swarms with byte-boundary bias, getter faults, mid-session attribute changes; every Hello decoded against the attribute record", "5.C04",
-         "Core half only (TLV writers + answerHello + transcribed periodic Hello). Sampling of the attribute space, not the exhaustive sweep; the Linux port half (os/linux/lltd_port.c) is exercised by the W2 check when built."),
+         "Core half in W1 (TLV writers + answerHello + transcribed periodic Hello); Linux platform half in W2: the real fillInterfaceDetails + os/linux/lltd_port.c feed the real core from a simulated NIC (address, MTU, loopback flag, IPv4/IPv6 via getifaddrs, host name, injected ifType/LinkSpeed/MediumType). Sampling of the attribute space, not the exhaustive sweep."),
  "C05": ("exploration", W1 + "stratified sweep over all 2 x 256 x 256 (state, ToS, opcode) single steps plus seeded multi-station histories against a set-valued arbitration model", "5.C05",
          "The sweep visits every (state, ToS, opcode) triple (coverage_cells in the evidence); histories are sampled."),
  "C06": ("exploration", W1 + "ordered (sleep, send) port-call trace per Emit against the descriptor list; over-declared counts bounded", "5.C06", "Emit from the model's certain active mapper; pauses checked as lower bounds on virtual send time."),
@@ -25,9 +25,9 @@ checks = {
  "C15": ("exploration", W1 + "all 4 x 8 x 5 (state, event, elapsed) cells + seeded walks against the life-cycle table with open cells as sets", "5.C15", "Events outside 0..7 are unspecified and not generated by the API driver."),
  "C16": ("exploration", W1 + "model-based operation sequences (<= 200 ops, 20-40 keys, 0..200 s advances) against a dictionary model, step by step", "5.C16", "Passive invariants also in every Darwin run."),
  "C17": ("exploration", W1 + "sequential half: seeded interleavings of two interfaces' histories vs each history alone (trace equality)", "5.C17",
-         "Decides the sequential-interleaving half. The threaded half (data race on g_iface_states) is the W2 scheduler's subject; see DESIGN section 6 and KNOWN_FINDINGS.txt."),
+         "Sequential half in W1. Threaded half in W2: the real embedded daemon with 2-3 simulated NICs, one lltdLoop thread each, scheduler pre-empting at libc calls and at every instrumented memory access of the core (clang -fsanitize=thread instrumentation, own callbacks), vector-clock happens-before detector with create/join edges only, per-NIC trace vs solo trace. The unsynchronised per-interface state list is a recorded known finding (KNOWN_FINDINGS.txt); any other race or unexplained cross-talk fails the check."),
  "C18": ("fault_enumeration", W1 + "systematic enumeration: every k-th allocation / send index / getter subset of every request of a fixed scenario corpus, post-Reset twin equality, constructors under allocation failure", "5.C18",
-         "Enumerates fault points of 6 scenarios + 24 constructor fault points; libc-level faults of the Linux port are W2's."),
+         "W1 enumerates fault points of 6 scenarios + 24 constructor fault points; W2 half injects libc-level faults into the real daemon and Linux port (k-th malloc of the run, sendto refusal / short write, SIOCGIFMTU failure, getifaddrs failure, socket failure for one NIC, recvfrom EINTR / 0) by seeded search."),
  "C19": ("exploration", W1 + "allocation ledger checked after every frame over long floods (quick 2*10^4, thorough 10^5 frames)", "5.C19", "Bound operationalised as 64 KiB + cached icon per interface."),
 }
 m = {
@@ -51,7 +51,7 @@ for pid in sorted(checks):
         "engine": "lltdsim",
         "level_claimed": {"category": lvl, "text": ("fault enumeration: " if lvl == "fault_enumeration" else "seeded exploration: ") + tech, "design_ref": ref},
         "level_note": note,
-        "technique": "deterministic simulation with fault injection: " + tech.replace(W1, "W1 simulated LAN around the real core; "),
+        "technique": "deterministic simulation with fault injection: " + tech.replace(W1, "W1 simulated LAN around the real core; ") + (" + W2: real Linux embedded daemon and port over a simulated libc with an owned thread scheduler" if pid in ("C01", "C04", "C17", "C18") else ""),
     })
 json.dump(m, open(os.path.join(V, "MANIFEST.json"), "w"), indent=1)
 print("wrote MANIFEST.json with", len(m["checks"]), "checks")
